@@ -544,7 +544,7 @@ def path_conditions(parents, node: ast.AST, upto: Optional[ast.AST] = None):
                             conds_here.append((s.test, True))
                 if isinstance(par, ast.If) and field in ("body", "orelse"):
                     conds_here.insert(0, (par.test, field == "body"))
-                if isinstance(par, ast.While) and field == "body":
+                if isinstance(par, ast.While) and field == "body" and par is not upto:
                     conds_here.insert(0, (par.test, True))
                 out = conds_here + out
                 break
@@ -604,3 +604,39 @@ def canon_fact(expr: ast.AST, polarity: bool):
 
 def canon_facts(facts):
     return {canon_fact(e, p) for e, p in facts}
+
+
+def path_term(parents, scope: Scope, node: ast.AST, upto=None, keep=()) -> tuple:
+    """Canonical term (tm boolean normal form) of the condition under which `node` runs, relative to the entry of
+    `upto` (see path_conditions); every test is resolved through single-definition locals first (except `keep`)."""
+    terms = []
+    for t, pol in path_conditions(parents, node, upto):
+        tt = tm.translate(scope.resolve(t, keep=tuple(keep)))
+        terms.append(tt if pol else tm.mk_not(tt))
+    if not terms:
+        return tm.atom_poly(("boolconst", True))
+    return tm.canon(tm.mk_bool("And", tuple(terms)))
+
+
+def cond_term(src: str) -> tuple:
+    return tm.canon(tm.parse(src))
+
+
+def rename_roles(fn: FuncInfo, mapping: Dict[str, str]) -> bool:
+    """Rename locals / parameters of fn IN PLACE (on this Program's private syntax tree) so that the variables playing
+    known roles carry the names the rules were written with; the rules then do not depend on what the repository
+    calls them.  Returns False (nothing renamed) when a canonical name is already used for something else."""
+    mapping = {a: b for a, b in mapping.items() if a != b}
+    if not mapping:
+        return True
+    used = {n.id for n in ast.walk(fn.node) if isinstance(n, ast.Name)} | {a.arg for a in ast.walk(fn.node) if isinstance(a, ast.arg)}
+    if any(b in used and b not in mapping for b in mapping.values()):
+        return False
+    if len(set(mapping.values())) != len(mapping):
+        return False
+    for n in ast.walk(fn.node):
+        if isinstance(n, ast.Name) and n.id in mapping:
+            n.id = mapping[n.id]
+        elif isinstance(n, ast.arg) and n.arg in mapping:
+            n.arg = mapping[n.arg]
+    return True
